@@ -165,15 +165,22 @@ type Member struct {
 	Required bool
 	IsGroup  bool
 	Members  []*Member // group members in declaration order, components expanded in place
+	// OptComp identifies the innermost optional component reference that encloses the member
+	// ("" = none); ReqInComp says that the member is required once that component is present
+	// (declared required, and every component between it and OptComp is required). FIX treats
+	// such fields as conditionally required: present whenever any field of the component is.
+	OptComp   string
+	ReqInComp bool
 }
 
 // Expand flattens nodes in declaration order. parentRequired is the conjunction of the
 // required flags of the component references enclosing these nodes.
 func (s *Spec) Expand(nodes []*Node, parentRequired bool) ([]*Member, error) {
-	return s.expand(nodes, parentRequired, nil)
+	n := 0
+	return s.expand(nodes, parentRequired, nil, "", true, &n)
 }
 
-func (s *Spec) expand(nodes []*Node, parentRequired bool, active []string) ([]*Member, error) {
+func (s *Spec) expand(nodes []*Node, parentRequired bool, active []string, optComp string, reqChain bool, counter *int) ([]*Member, error) {
 	var out []*Member
 	for _, n := range nodes {
 		switch n.Kind {
@@ -182,10 +189,11 @@ func (s *Spec) expand(nodes []*Node, parentRequired bool, active []string) ([]*M
 			if !ok {
 				return nil, fmt.Errorf("reference to undefined field %q", n.Name)
 			}
-			m := &Member{Tag: fd.Number, Name: fd.Name, Type: fd.Type, Enums: fd.Enums, Required: n.Required && parentRequired}
+			m := &Member{Tag: fd.Number, Name: fd.Name, Type: fd.Type, Enums: fd.Enums, Required: n.Required && parentRequired,
+				OptComp: optComp, ReqInComp: optComp != "" && n.Required && reqChain}
 			if n.Kind == "group" {
 				m.IsGroup = true
-				sub, err := s.expand(n.Children, true, active)
+				sub, err := s.expand(n.Children, true, active, "", true, counter)
 				if err != nil {
 					return nil, err
 				}
@@ -202,7 +210,12 @@ func (s *Spec) expand(nodes []*Node, parentRequired bool, active []string) ([]*M
 					return nil, fmt.Errorf("component cycle through %q", n.Name)
 				}
 			}
-			sub, err := s.expand(def, parentRequired && n.Required, append(active, n.Name))
+			oc, rc := optComp, reqChain
+			if !n.Required {
+				*counter++
+				oc, rc = fmt.Sprintf("%s#%d", n.Name, *counter), true
+			}
+			sub, err := s.expand(def, parentRequired && n.Required, append(active, n.Name), oc, rc, counter)
 			if err != nil {
 				return nil, err
 			}
